@@ -902,10 +902,15 @@ def _run_case(case):
             tracer = Tracer()
             aug = {}
             o_trunc = bugmod.recursive_truncation
+            # ---- C09W hook: raw structure of the state before the step (store-level tie, props/c09w.py) ----
+            from props import c09w
+            st["w0"] = c09w.snap(state0)
+            # ---- end of C09W hook ----
 
             def rec_trunc(tree, params, _o=o_trunc, _aug=aug, _tr=tracer):
                 _tr.end()
                 _tr.events.append(("Truncate",))
+                _aug["w1"] = c09w.snap(tree)          # C09W hook: raw structure after the un-truncated update
                 _aug["psi"] = util.dense_ttn(tree, ids)
                 _aug["bonds"] = bonds_of(tree, n)
                 _aug["dtree"] = py_dtree(tree, tree.root_id)
@@ -933,6 +938,7 @@ def _run_case(case):
                 break
             state1 = ev.state
             if fixed:
+                aug["w1"] = c09w.snap(state1)         # C09W hook: raw structure after the update
                 aug["psi"] = util.dense_ttn(state1, ids)
                 aug["bonds"] = bonds_of(state1, n)
                 aug["dtree"] = py_dtree(state1, state1.root_id)
@@ -1077,6 +1083,13 @@ class C09(Prop):
 
     # ------------------------------------------------------------------------------------------
     def model(self, ctx, cases, obs):
+        # ---- C09W hook: store-level structure tie and instance obligations (Evo/BUGStore.v) ----
+        from props import c09w
+        try:
+            self._w = c09w.run(ctx, cases, obs)
+        except Exception as e:  # noqa
+            self._w = (1, 0, [f"C09W evaluation failed: {type(e).__name__}: {e}"])
+        # ---- end of C09W hook ----
         exprs, where = [], []
         for i, (c, ob) in enumerate(zip(cases, obs)):
             if isinstance(ob, SkipCase) or "harness_exception" in ob:
@@ -1097,9 +1110,14 @@ class C09(Prop):
             out[i][s] = v
         return out
 
+    def extra_obligations(self, ctx):
+        return self.__dict__.get("_w", (0, 0, []))           # C09W hook: wfb / iso_check per explored instance
+
     def compare(self, case, ob, mo):
         if "harness_exception" in ob:
             return f"harness exception: {ob['harness_exception']}"
+        if ob.get("w_tie"):                                   # C09W hook: set by c09w.run
+            return ob["w_tie"]
         fixed = case["method"] == "fbug"
         for deep in (False, True):
             run = ob["runs"][deep]
